@@ -2,6 +2,7 @@ import BumpVerif.Proofs.VecCore
 import BumpVerif.Proofs.VecFilter
 import BumpVerif.Proofs.VecDrain
 import BumpVerif.Proofs.VecMore
+import BumpVerif.Proofs.VecSplice
 /-!
 # C13 (Vec part) — `bumpalo::collections::Vec` refines the `List` specification
 
@@ -19,10 +20,18 @@ Full list of the property and its status here:
   retain, drain_filter (also dropped early), into_iter (front and back), reserve / reserve_exact /
   try_reserve(_exact) (`cap ≥ len + n`, growth `max(2·cap, len + n)`), `len ≤ cap` as part of `RepB`
   in every conclusion;
-* NOT proved here (covered by the correspondence run — model = crate on every call — and the
-  `std::vec::Vec` side-by-side oracle only): resize, extend, extend_from_slice(_copy),
-  extend_from_slices_copy, splice, dedup(_by/_by_key), shrink_to_fit, clone, into_boxed_slice,
-  from_iter_in/collect_in, vec!, io::Write.
+* second group (helper lemmas in `Proofs/VecRefine2.lean`, `Proofs/VecSplice.lean`): splice (every
+  path: `C13_splice_any`; the returning one: `C13_splice`), extend / from_iter_in / collect_in (caller's
+  iterator with any `size_hint`), extend_from_slice, clone, resize (both branches), extend_from_slice_copy,
+  extend_from_slices_copy, io::Write, dedup_by / dedup / dedup_by_key (comparison = function of the two
+  elements), shrink_to_fit, into_boxed_slice, vec! (both forms).
+  "Does not panic" is stated under `GrowOK c N` (the arena serves every buffer of up to `2·N`
+  elements, `N` ≥ the final length — plus the iterator's claimed `size_hint`, which the code reserves
+  blindly): a sufficient condition, not the exact one — the exact refusal condition of each individual
+  reservation is the one of `C13_reserve`;
+* restrictions that remain: `dedup*` with a comparison that depends on the call index or panics is
+  covered by C15/C16 only (permutation + no leak), not by a contents theorem; `resize` shrinking /
+  `truncate` with panicking destructors likewise (`C16_truncate`).
 -/
 namespace Bump.V.C13
 open Bump Bump.V
@@ -188,6 +197,213 @@ theorem C13_split_off {c : Cfg} {v : VS} {xs : List Elem} (hc : CfgOK c) (h : Re
     (splitOff c v at_ w = (v, none, w) ∧ (xs.length < at_ ∨ withCapacity c (xs.length - at_) = none)) :=
   splitOff_spec hc h at_ w
 
+/-! ## second group: splice, extend family, resize, clone, dedup, shrink_to_fit, into_boxed_slice, vec!, io::Write -/
+
+/-- `splice(range, iter)` on a rejected range panics before anything is touched; the iterator
+argument is dropped by the unwinding -/
+theorem C13_splice_panics {c : Cfg} {v : VS} {xs : List Elem} (h : RepB c v xs) {s e : Bd}
+    (hbad : ¬ ∃ st en, DrainOK c xs.length s e st en) (it : It) (take : Nat) (w : W) :
+    spliceOp c v s e it take w = (v, it.dropRest c w, none) := by
+  apply spliceOp_panics
+  rw [h.len]; exact hbad
+
+/-- `splice(st..en, iter)`, `take` × `next()`, `Splice` dropped — *every* path (iterator with any
+`size_hint`, panicking at any `next` call or never; destructors panicking or not; growth refused or
+not).  The first `min take (en - st)` elements of the range are handed to the caller, the rest of the
+range is dropped; the vector ends as `xs.take st ++ items.take j ++ xs.drop en`: the tail is always
+moved back behind what was inserted (no hole, no duplicate); the `items.drop j` not inserted are
+dropped in order.  The call returns (`r = some _`) only with `j = |items|`, and it does return when
+nothing panics and the arena serves the growth. -/
+theorem C13_splice_any {c : Cfg} (hc : CfgOK c) (N : Nat) {v : VS} {xs : List Elem} (h : RepB c v xs) {s e : Bd} {st en : Nat}
+    (hok : DrainOK c xs.length s e st en) (src : Src) (take : Nat) (w : W) :
+    ∃ (j : Nat) (v' : VS) (w' : W) (r : Option (List Elem)), spliceOp c v s e (.src src) take w = (v', w', r) ∧
+      j ≤ src.items.length ∧ RepB c v' (xs.take st ++ src.items.take j ++ xs.drop en) ∧
+      w'.evs = w.evs ++ movedEvs ((xs.drop st).take (min take (en - st))) ++
+        dropEvs c ((xs.drop (st + min take (en - st))).take (en - (st + min take (en - st)))) ++ dropEvs c (src.items.drop j) ∧
+      w'.bad = w.bad ∧ w'.nextId = w.nextId ∧
+      (∀ m, r = some m → m = (xs.drop st).take (min take (en - st)) ∧ j = src.items.length) ∧
+      (src.panicAt = none → c.dropPanicAt = none → GrowOK c N → xs.length + src.items.length + src.hint ≤ N →
+        r = some ((xs.drop st).take (min take (en - st)))) :=
+  spliceOp_spec hc N h hok src take w
+
+/-- `splice(st..en, iter)` when nothing panics and the arena serves the growth: the drained range is
+replaced by the iterator's items — `xs.take st ++ items ++ xs.drop en` = `List` splice —, the first
+`take` drained elements are returned in order, the others dropped; the iterator's `size_hint` may
+claim anything -/
+theorem C13_splice {c : Cfg} (hc : CfgOK c) (N : Nat) {v : VS} {xs : List Elem} (h : RepB c v xs) {s e : Bd} {st en : Nat}
+    (hok : DrainOK c xs.length s e st en) (src : Src) (take : Nat) (w : W) (hip : src.panicAt = none)
+    (hdp : c.dropPanicAt = none) (hg : GrowOK c N) (hN : xs.length + src.items.length + src.hint ≤ N) :
+    ∃ v' w', spliceOp c v s e (.src src) take w = (v', w', some ((xs.drop st).take (min take (en - st)))) ∧
+      RepB c v' (xs.take st ++ src.items ++ xs.drop en) ∧
+      w'.evs = w.evs ++ movedEvs ((xs.drop st).take (min take (en - st))) ++
+        dropEvs c ((xs.drop (st + min take (en - st))).take (en - (st + min take (en - st)))) ∧ w'.bad = w.bad := by
+  obtain ⟨j, v', w', r, hrun, _, hrep, hev, hb, _, hres, hgood⟩ := spliceOp_spec hc N h hok src take w
+  have hr := hgood hip hdp hg hN
+  subst hr
+  obtain ⟨_, hj⟩ := hres _ rfl
+  subst hj
+  refine ⟨v', w', hrun, by simpa using hrep, by simpa [dropEvs] using hev, hb⟩
+
+/-- `extend(iter)` with the caller's iterator (any `size_hint`; may panic at any `next` call): a
+prefix of the items is appended in order, the others are dropped by the unwinding; all of them are
+appended, and nothing is dropped, unless the iterator panics or the growth is refused -/
+theorem C13_extend {c : Cfg} (hc : CfgOK c) (N : Nat) {v : VS} {xs : List Elem} (h : RepB c v xs) (s : Src) (w : W) :
+    ∃ (j : Nat) (v' : VS) (w' : W) (r : Option Unit), extend c v (.src s) w = (v', w', r) ∧ j ≤ s.items.length ∧
+      RepB c v' (xs ++ s.items.take j) ∧ w'.evs = w.evs ++ dropEvs c (s.items.drop j) ∧ w'.bad = w.bad ∧ w'.nextId = w.nextId ∧
+      (r = some () → j = s.items.length) ∧
+      (s.panicAt = none → GrowOK c N → xs.length + s.items.length ≤ N → xs.length + (s.hint - s.consumed) ≤ N → r = some ()) :=
+  extend_src_spec hc N h s w
+
+/-- `from_iter_in(iter, bump)` / `collect_in`: the vector of the items, in order, no other effect; if
+the iterator panics (or the growth is refused) every item is dropped exactly once -/
+theorem C13_from_iter {c : Cfg} (hc : CfgOK c) (N : Nat) (s : Src) (w : W) :
+    ∃ (j : Nat) (r : Option VS) (w' : W), fromIter c (.src s) w = (r, w') ∧ j ≤ s.items.length ∧ w'.bad = w.bad ∧
+      (∀ v', r = some v' → RepB c v' s.items ∧ w'.evs = w.evs) ∧
+      (r = none → w'.evs = w.evs ++ dropEvs c (s.items.drop j) ++ dropEvs c (s.items.take j)) ∧
+      (s.panicAt = none → GrowOK c N → s.items.length ≤ N → s.hint - s.consumed ≤ N → r ≠ none) :=
+  fromIter_spec hc N s w
+
+/-- `extend_from_slice(other)`: the clones of `other`'s elements (`clonesFrom`: same values, fresh
+identities for a type whose `Clone` makes new values) are appended in order — all of them unless
+`Clone` panics or the growth is refused; a clone whose `push` is refused is dropped -/
+theorem C13_extend_from_slice {c : Cfg} (hc : CfgOK c) (N : Nat) {v : VS} {xs : List Elem} (h : RepB c v xs) (src : List Elem) (w : W) :
+    ∃ (j m : Nat) (v' : VS) (w' : W) (r : Option Unit), extend c v (.cloned src) w = (v', w', r) ∧ j + m ≤ src.length ∧
+      RepB c v' (xs ++ (clonesFrom c w.nextId src).take j) ∧
+      w'.evs = w.evs ++ dropEvs c (((clonesFrom c w.nextId src).drop j).take m) ∧ w'.bad = w.bad ∧ w.nextId ≤ w'.nextId ∧
+      (r = some () → j = src.length ∧ m = 0) ∧ (CloneOK c → GrowOK c N → xs.length + src.length ≤ N → r = some ()) :=
+  extendFromSlice_spec hc N h src w
+
+/-- clones carry the values of their originals, in order -/
+theorem C13_clones_vals (c : Cfg) (n : Nat) (src : List Elem) :
+    (clonesFrom c n src).map (·.val) = src.map (·.val) ∧ (clonesFrom c n src).length = src.length :=
+  ⟨clonesFrom_vals c n src, clonesFrom_length c n src⟩
+
+/-- `clone()`: a new vector with the clones of the elements, in order; the original is untouched;
+if `Clone` panics the partly built vector is dropped -/
+theorem C13_clone {c : Cfg} (hc : CfgOK c) (N : Nat) {v : VS} {xs : List Elem} (h : RepB c v xs) (w : W) :
+    ∃ (r : Option VS) (w' : W), cloneVec c v w = (r, w') ∧ w'.bad = w.bad ∧
+      (∀ nv, r = some nv → RepB c nv (clonesFrom c w.nextId xs) ∧ w'.evs = w.evs) ∧
+      (r = none → ∃ j m, j + m ≤ xs.length ∧ w'.evs = w.evs ++ dropEvs c (((clonesFrom c w.nextId xs).drop j).take m) ++
+        dropEvs c ((clonesFrom c w.nextId xs).take j)) ∧
+      (CloneOK c → GrowOK c N → xs.length ≤ N → withCapacity c xs.length ≠ none → r ≠ none) :=
+  cloneVec_spec hc N h w
+
+/-- `resize(n, value)`, growing (`n > len`), `Clone` does not panic, growth served: `n - len - 1` clones
+of `value` and then `value` itself are appended — `n - len` elements with `value`'s value -/
+theorem C13_resize_grow {c : Cfg} (hc : CfgOK c) (N : Nat) {v : VS} {xs : List Elem} (h : RepB c v xs) (n : Nat) (x : Elem) (w : W)
+    (hn : xs.length < n) (hco : CloneOK c) (hg : GrowOK c N) (hN : n ≤ N) :
+    ∃ v' w' ys, resize c v n x w = (v', w', some ()) ∧ RepB c v' (xs ++ ys) ∧ ys.length = n - xs.length ∧
+      ys = clonesFrom c w.nextId (List.replicate (n - xs.length - 1) x) ++ [x] ∧
+      ys.map (·.val) = List.replicate (n - xs.length) x.val ∧ w'.evs = w.evs ∧ w'.bad = w.bad := by
+  obtain ⟨v', w', hrun, hrep, hev, hb⟩ := resize_grow_spec hc N h n x w hn hco hg hN
+  refine ⟨v', w', _, hrun, by simpa [List.append_assoc] using hrep, ?_, rfl, ?_, hev, hb⟩
+  · simp [clonesFrom_length]; omega
+  · rw [List.map_append, clonesFrom_vals]
+    have : n - xs.length = (n - xs.length - 1) + 1 := by omega
+    rw [this, List.replicate_succ']
+    simp
+
+/-- `resize(n, value)`, shrinking (`n ≤ len`), destructors do not panic: `truncate(n)` — the elements
+from `n` on are dropped from the back — and then `value` is dropped -/
+theorem C13_resize_shrink {c : Cfg} {v : VS} {xs : List Elem} (h : RepB c v xs) (n : Nat) (x : Elem) (w : W)
+    (hn : n ≤ xs.length) (hnp : c.dropPanicAt = none) :
+    ∃ v' w', resize c v n x w = (v', w', some ()) ∧ RepB c v' (xs.take n) ∧
+      w'.evs = w.evs ++ dropEvs c (xs.drop n).reverse ++ dropEvs c [x] ∧ w'.bad = w.bad :=
+  resize_shrink_spec h n x w hn hnp
+
+/-- `extend_from_slice_copy(other)` (`T: Copy`): `other` is appended by one `copy_nonoverlapping`;
+panics — nothing changes — only when the growth is refused -/
+theorem C13_extend_from_slice_copy {c : Cfg} (hc : CfgOK c) {v : VS} {xs : List Elem} (h : RepB c v xs) (src : List Elem) (w : W) :
+    (∃ v', extendFromSliceCopy c v src w = (v', w, some ()) ∧ RepB c v' (xs ++ src)) ∨
+    (extendFromSliceCopy c v src w = (v, w, none) ∧ rawReserve c v v.len src.length = none) :=
+  extendFromSliceCopy_spec hc h src w
+
+/-- `extend_from_slices_copy(slices)`: one reservation of the total, then the slices are appended in
+order (`xs ++ slices.flatten`); the unchecked copies stay inside the reserved capacity (no debug
+assertion fires: `w` unchanged, in particular `w.bad`) -/
+theorem C13_extend_from_slices_copy {c : Cfg} (hc : CfgOK c) {v : VS} {xs : List Elem} (h : RepB c v xs)
+    (srcs : List (List Elem)) (w : W) :
+    (∃ v', extendFromSlicesCopy c v srcs w = (v', w, some ()) ∧ RepB c v' (xs ++ srcs.flatten)) ∨
+    (extendFromSlicesCopy c v srcs w = (v, w, none) ∧ rawReserve c v v.len (srcs.map List.length).sum = none) :=
+  extendFromSlicesCopy_spec hc h srcs w
+
+/-- `io::Write::write` / `write_all` on a `Vec<u8>`: the bytes are appended, `write` reports
+`buf.len()`; `flush` is a no-op -/
+theorem C13_io_write {c : Cfg} (hc : CfgOK c) {v : VS} {xs : List Elem} (h : RepB c v xs) (buf : List Elem) (w : W) :
+    (∃ v', ioWrite c v buf w = (v', w, some buf.length) ∧ RepB c v' (xs ++ buf)) ∨
+    (ioWrite c v buf w = (v, w, none) ∧ rawReserve c v v.len buf.length = none) :=
+  ioWrite_spec hc h buf w
+
+/-- `dedup_by(same)` for a comparison that is a function of the two elements (destructors do not
+panic): the vector keeps `dedupSpec same xs` — the first element of every run of consecutive "same"
+elements, each later element compared with the last *kept* one —, the removed ones are dropped (the
+swap-based partition permutes them, so only "some order"), the call returns -/
+theorem C13_dedup_by {c : Cfg} {v : VS} {xs : List Elem} (h : RepB c v xs) (same : Elem → Elem → Bool) (w : W)
+    (hnp : c.dropPanicAt = none) :
+    ∃ (v' : VS) (w' : W) (zs : List Elem), dedupBy c v (fun _ a b => some (same a b)) w = (v', w', some ()) ∧
+      RepB c v' (dedupSpec same xs) ∧ w'.evs = w.evs ++ dropEvs c zs ∧ zs.Perm (dedupRemoved same xs) ∧ w'.bad = w.bad :=
+  dedupBy_pure_spec h same w hnp
+
+/-- `dedup()` = `dedup_by(|a, b| a == b)` -/
+theorem C13_dedup {c : Cfg} {v : VS} {xs : List Elem} (h : RepB c v xs) (w : W) (hnp : c.dropPanicAt = none) :
+    ∃ (v' : VS) (w' : W), dedupBy c v (fun _ a b => some (a.val == b.val)) w = (v', w', some ()) ∧
+      RepB c v' (dedupSpec (fun a b => a.val == b.val) xs) ∧ w'.bad = w.bad := by
+  obtain ⟨v', w', _, hrun, hrep, _, _, hb⟩ := dedupBy_pure_spec h (fun a b => a.val == b.val) w hnp
+  exact ⟨v', w', hrun, hrep, hb⟩
+
+/-- `dedup_by_key(key)` = `dedup_by(|a, b| key(a) == key(b))` -/
+theorem C13_dedup_by_key {c : Cfg} {v : VS} {xs : List Elem} (h : RepB c v xs) (key : Elem → Nat) (w : W) (hnp : c.dropPanicAt = none) :
+    ∃ (v' : VS) (w' : W), dedupBy c v (fun _ a b => some (key a == key b)) w = (v', w', some ()) ∧
+      RepB c v' (dedupSpec (fun a b => key a == key b) xs) ∧ w'.bad = w.bad := by
+  obtain ⟨v', w', _, hrun, hrep, _, _, hb⟩ := dedupBy_pure_spec h (fun a b => key a == key b) w hnp
+  exact ⟨v', w', hrun, hrep, hb⟩
+
+/-- `shrink_to_fit()`: contents unchanged, `capacity() = len` afterwards (sized elements); panics only
+when the arena refuses the reallocation -/
+theorem C13_shrink_to_fit {c : Cfg} {v : VS} {xs : List Elem} (h : RepB c v xs) :
+    (∃ v', shrinkToFit c v = some v' ∧ RepB c v' xs ∧ (c.esz ≠ 0 → capOf c v' = xs.length)) ∨
+    (shrinkToFit c v = none ∧ c.allocOk = false ∧ c.esz ≠ 0 ∧ xs.length ≠ 0 ∧ xs.length < v.cap) :=
+  shrinkToFit_spec h
+
+/-- `into_boxed_slice()`: the box holds exactly the contents (no shrinking, no event); dropping the
+box drops them in order -/
+theorem C13_into_boxed_slice {c : Cfg} {v : VS} {xs : List Elem} (h : RepB c v xs) (w : W) :
+    (intoBoxedThenDrop c v w).1 = xs ∧ (intoBoxedThenDrop c v w).2.1.evs = w.evs ++ dropEvs c xs ∧
+      (intoBoxedThenDrop c v w).2.1.bad = w.bad ∧ (c.dropPanicAt = none → (intoBoxedThenDrop c v w).2.2 = false) :=
+  intoBoxed_spec h w
+
+/-- `vec![in b; elem; n]` (`Clone` does not panic, requests served): `n` elements with `elem`'s
+value — `n - 1` clones, then `elem` itself; for `n = 0` an empty vector and `elem` is not evaluated -/
+theorem C13_vec_macro_n {c : Cfg} (hc : CfgOK c) (N : Nat) (x : Elem) (n : Nat) (w : W) (hco : CloneOK c) (hg : GrowOK c N)
+    (hN : n ≤ N) (hwc : withCapacity c n ≠ none) :
+    ∃ v' w' ys, vmacroN c x n w = (some v', w', decide (n > 0)) ∧ RepB c v' ys ∧ ys.map (·.val) = List.replicate n x.val ∧
+      w'.evs = w.evs ∧ w'.bad = w.bad := by
+  obtain ⟨v', w', hrun, hev, hb, hrep⟩ := vmacroN_spec hc N x n w hco hg hN hwc
+  refine ⟨v', w', _, hrun, hrep, ?_, hev, hb⟩
+  by_cases hn0 : n = 0
+  · simp [hn0]
+  · simp only [hn0, ↓reduceIte, List.map_append, clonesFrom_vals]
+    have : n = (n - 1) + 1 := by omega
+    conv => rhs; rw [this, List.replicate_succ']
+    simp
+
+/-- `vec![in b; a, b, c]` (requests served): the vector of the listed values, no other effect -/
+theorem C13_vec_macro_list {c : Cfg} (hc : CfgOK c) (N : Nat) (es : List Elem) (w : W) (hg : GrowOK c N) (hN : es.length ≤ N) :
+    ∃ v', vmacroListOp c es w = (some v', w, []) ∧ RepB c v' es :=
+  vmacroListOp_spec hc N es w hg hN
+
+/-- non-vacuity of the hypotheses of the second group -/
+example : GrowOK {} 1000 := by unfold GrowOK; decide
+example : CloneOK {} := fun _ => rfl
+example : DrainOK {} 3 (.inc 0) (.exc 1) 0 1 := by unfold DrainOK; decide
+/-- a concrete run: `[1,2,3].splice(0..1, [7,8])` with a `size_hint` of 0 gives `[7,8,2,3]` and
+returns the drained `1` -/
+example :
+    let xs : List Elem := [⟨1, 1⟩, ⟨2, 2⟩, ⟨3, 3⟩]
+    let r := spliceOp {} ⟨xs.map some, 3, 3⟩ (.inc 0) (.exc 1) (.src ⟨[⟨7, 7⟩, ⟨8, 8⟩], 0, 0, 0, none⟩) 5 {}
+    r.1.owned.map (·.id) = [7, 8, 2, 3] ∧ r.2.1.evs = [.moveOut 1] ∧ r.2.2.map (·.map (·.id)) = some [1] := by
+  decide
+
 /-- non-vacuity: a concrete vector with a stale slot after `len` satisfies the hypotheses -/
 example : RepB {} ⟨[some ⟨1, 10⟩, some ⟨2, 20⟩, some ⟨2, 20⟩, none], 2, 4⟩ [⟨1, 10⟩, ⟨2, 20⟩] :=
   ⟨⟨⟨[some ⟨2, 20⟩, none], rfl⟩, rfl, fun _ => rfl, by decide⟩, by decide, fun _ => by decide⟩
@@ -213,3 +429,23 @@ end Bump.V.C13
 #print axioms Bump.V.C13.C13_into_iter
 #print axioms Bump.V.C13.C13_append
 #print axioms Bump.V.C13.C13_split_off
+#print axioms Bump.V.C13.C13_splice_panics
+#print axioms Bump.V.C13.C13_splice_any
+#print axioms Bump.V.C13.C13_splice
+#print axioms Bump.V.C13.C13_extend
+#print axioms Bump.V.C13.C13_from_iter
+#print axioms Bump.V.C13.C13_extend_from_slice
+#print axioms Bump.V.C13.C13_clones_vals
+#print axioms Bump.V.C13.C13_clone
+#print axioms Bump.V.C13.C13_resize_grow
+#print axioms Bump.V.C13.C13_resize_shrink
+#print axioms Bump.V.C13.C13_extend_from_slice_copy
+#print axioms Bump.V.C13.C13_extend_from_slices_copy
+#print axioms Bump.V.C13.C13_io_write
+#print axioms Bump.V.C13.C13_dedup_by
+#print axioms Bump.V.C13.C13_dedup
+#print axioms Bump.V.C13.C13_dedup_by_key
+#print axioms Bump.V.C13.C13_shrink_to_fit
+#print axioms Bump.V.C13.C13_into_boxed_slice
+#print axioms Bump.V.C13.C13_vec_macro_n
+#print axioms Bump.V.C13.C13_vec_macro_list
